@@ -61,6 +61,15 @@ const (
 
 var v01KindNames = []string{"G", "B", "H", "T", "D"}
 
+const (
+	v01HoldNone      = iota
+	v01HoldWritten   // until the round's proxy ops were written (cap 300 ms)
+	v01HoldAfterAuth // until another auth op's verdict was returned (cap 40 ms): generated completion order
+	v01HoldPastClose // until the op's own connection was closed (cap 5 s): the verdict arrives after the close
+)
+
+var v01HoldNames = []string{"", "written", "after-auth", "past-close"}
+
 type v01Op struct {
 	Kind  int
 	Conn  int
@@ -72,8 +81,15 @@ type v01Op struct {
 	Token  string // full header value; "\x00" = header absent
 	CCRX   string
 	Pad    string
-	Slow   bool
+	Slow   bool // = Hold != v01HoldNone
 	HoldMs int
+	// Hold: the fake authenticator parks this op's Authenticate call until an event
+	// (always with a cap, so nothing can dead-lock), then sleeps HoldMs, then answers.
+	Hold       int
+	HoldTarget string // v01HoldAfterAuth: label of the other auth op whose verdict is awaited
+	HoldLate   bool   // v01HoldPastClose: also wait until the next round's connections are open
+	Detached   bool   // the round does not wait for this op (it can only finish when its connection is closed)
+	pairOf     *v01Op
 	// H
 	HTTP *v01HTTPReq
 	// T
@@ -107,7 +123,17 @@ func (o *v01Op) String() string {
 		}
 		s := fmt.Sprintf("%s(c%d op%d token=%q rx=%s", v01KindNames[o.Kind], o.Conn, o.N, tok, o.CCRX)
 		if o.Slow {
-			s += fmt.Sprintf(" hold=%dms", o.HoldMs)
+			s += fmt.Sprintf(" hold=%s", v01HoldNames[o.Hold])
+			if o.Hold == v01HoldAfterAuth {
+				s += "(" + o.HoldTarget + ")"
+			}
+			if o.HoldLate {
+				s += "+next-round-open"
+			}
+			s += fmt.Sprintf("+%dms", o.HoldMs)
+		}
+		if o.Detached {
+			s += " detached"
 		}
 		return s + ")"
 	case v01KOtherHTTP:
@@ -134,7 +160,8 @@ type v01Case struct {
 	Rounds     [][]*v01Op
 	GoodTokens []string
 	UseTL      bool
-	OneP       bool // run the case with GOMAXPROCS(1) (makes per-P caches/pools in the server deterministic)
+	ParkClose  []int // round in which an auth call of the connection is parked across its close (-1 none)
+	OneP       bool  // run the case with GOMAXPROCS(1) (makes per-P caches/pools in the server deterministic)
 	Mode       string
 	Seed       int64
 }
@@ -170,7 +197,7 @@ func (c *v01Case) fingerprint() string {
 				k += fmt.Sprint(o.DMode)
 			}
 			if o.Slow {
-				k += "~"
+				k += "~" + fmt.Sprint(o.Hold)
 			}
 			per[o.Conn] = append(per[o.Conn], fmt.Sprintf("%d%s", r, k))
 		}
@@ -405,9 +432,41 @@ func v01DrawCase(rt *rapid.T) *v01Case {
 			c.Rounds[r] = append(c.Rounds[r], &v01Op{Round: r, Conn: ci, Kind: k})
 		}
 	}
+	// scenario booster: a rejected attempt concurrent with the accepted one (its verdict is
+	// generated to arrive AFTER the accepted one's), followed by a proxy stream in the next round
+	for ci, p := range c.Conns {
+		if !p.Accept || p.Close-p.Open < 2 {
+			continue
+		}
+		var g *v01Op
+		for _, ops := range c.Rounds {
+			for _, o := range ops {
+				if g == nil && o.Conn == ci && o.Kind == v01KAuthGood {
+					g = o
+				}
+			}
+		}
+		if g == nil || g.Round+1 >= p.Close || rapid.IntRange(0, 9).Draw(rt, fmt.Sprintf("c%d/boost", ci)) >= 3 {
+			continue
+		}
+		c.Rounds[g.Round] = append(c.Rounds[g.Round], &v01Op{Round: g.Round, Conn: ci, Kind: v01KAuthBad, pairOf: g})
+		c.Rounds[g.Round+1] = append(c.Rounds[g.Round+1], &v01Op{Round: g.Round + 1, Conn: ci, Kind: v01KTCPReq})
+	}
 	c.AcceptRnd = make([]int, c.NConn)
+	c.ParkClose = make([]int, c.NConn)
 	for i := range c.AcceptRnd {
 		c.AcceptRnd[i] = -1
+		c.ParkClose[i] = -1
+	}
+	{
+		k := 0
+		for _, ops := range c.Rounds {
+			for _, o := range ops {
+				o.N = k
+				k++
+				o.Label = fmt.Sprintf("c%d-op%d", o.Conn, o.N)
+			}
+		}
 	}
 	lastRound := make([]int, c.NConn)
 	for r, ops := range c.Rounds {
@@ -422,9 +481,7 @@ func v01DrawCase(rt *rapid.T) *v01Case {
 	n := 0
 	for r, ops := range c.Rounds {
 		for _, o := range ops {
-			o.N = n
 			n++
-			o.Label = fmt.Sprintf("c%d-op%d", o.Conn, o.N)
 			name := o.Label
 			post := c.AcceptRnd[o.Conn] >= 0 && r > c.AcceptRnd[o.Conn]
 			switch o.Kind {
@@ -436,13 +493,39 @@ func v01DrawCase(rt *rapid.T) *v01Case {
 				} else {
 					o.Token = t + "#" + o.Label
 				}
+				if o.pairOf != nil && o.Token == "\x00" {
+					o.Token = "wrong-password#" + o.Label
+				}
 				o.CCRX = rapid.SampledFrom([]string{"-", "0", "0", "1000000000", "junk"}).Draw(rt, name+"/rx")
 				if rapid.Bool().Draw(rt, name+"/pad") {
 					o.Pad = strings.Repeat("z", 1+rapid.IntRange(0, 300).Draw(rt, name+"/padlen"))
 				}
-				if rapid.IntRange(0, 2).Draw(rt, name+"/slow") > 0 && o.Token != "\x00" {
-					o.Slow = true
-					o.HoldMs = rapid.IntRange(1, 12).Draw(rt, name+"/hold")
+				if o.Token != "\x00" {
+					h := rapid.IntRange(0, 9).Draw(rt, name+"/holdkind")
+					p := c.Conns[o.Conn]
+					var other *v01Op // another labelled auth op of the same connection in the same round
+					for _, x := range ops {
+						if x != o && x.Conn == o.Conn && (x.Kind == v01KAuthGood || x.Kind == v01KAuthBad) && x.HoldTarget != o.Label {
+							other = x
+						}
+					}
+					switch {
+					case o.pairOf != nil:
+						o.Hold, o.HoldTarget = v01HoldAfterAuth, o.pairOf.Label
+					case r == p.Close-1 && p.Close < nr && c.ParkClose[o.Conn] < 0 && h < 4:
+						// the connection is closed while this call is parked; the verdict arrives after the close
+						o.Hold = v01HoldPastClose
+						o.HoldLate = rapid.Bool().Draw(rt, name+"/holdlate")
+						c.ParkClose[o.Conn] = r
+					case other != nil && h < 7:
+						o.Hold, o.HoldTarget = v01HoldAfterAuth, other.Label
+					case h < 7:
+						o.Hold = v01HoldWritten
+					}
+					if o.Hold != v01HoldNone {
+						o.Slow = true
+						o.HoldMs = rapid.IntRange(1, 12).Draw(rt, name+"/hold")
+					}
 				}
 			case v01KOtherHTTP:
 				good := rapid.SampledFrom(c.GoodTokens).Draw(rt, name+"/tok")
@@ -474,6 +557,17 @@ func v01DrawCase(rt *rapid.T) *v01Case {
 				o.SID = uint32(rapid.IntRange(1, 3).Draw(rt, name+"/sid"))
 				o.DMode = rapid.SampledFrom([]int{0, 0, 0, 1, 2}).Draw(rt, name+"/dmode")
 				o.DataLen = rapid.SampledFrom([]int{1, 8, 100, 600}).Draw(rt, name+"/dlen")
+			}
+		}
+	}
+	_ = n
+	// While a call is parked across the close, a correct server holds the connection's auth
+	// lock: every other auth-shaped request of that connection in that round can only finish
+	// when the connection is closed, so the round must not wait for any of its HTTP ops.
+	for r, ops := range c.Rounds {
+		for _, o := range ops {
+			if c.ParkClose[o.Conn] == r && (o.Kind == v01KAuthGood || o.Kind == v01KAuthBad || o.Kind == v01KOtherHTTP) {
+				o.Detached = true
 			}
 		}
 	}
@@ -523,6 +617,29 @@ type v01Run struct {
 	barrier []v01HTTPResp
 	silentN map[string]int // label -> bytes read from a never-accepted connection's stream
 	dgramsN []int
+
+	evMu        sync.Mutex
+	authDone    map[string]chan struct{} // label -> closed when that auth op's verdict was returned
+	connClosed  []chan struct{}          // closed when the client side of the connection was closed
+	roundOpened []chan struct{}          // closed when the connections of that round are open
+	detached    [][]chan struct{}        // per connection: completion of ops the rounds did not wait for
+	softMissing int                      // Disconnect / late verdict not seen within the soft bound
+}
+
+func v01CloseOnce(ch chan struct{}) {
+	defer func() { _ = recover() }()
+	close(ch)
+}
+
+func v01WaitCap(ch <-chan struct{}, d time.Duration) bool {
+	t := time.NewTimer(d)
+	defer t.Stop()
+	select {
+	case <-ch:
+		return true
+	case <-t.C:
+		return false
+	}
 }
 
 // v01Execute runs the history once against a fresh server. envErr != "" means the
@@ -542,27 +659,67 @@ func v01Execute(c *v01Case) (_ *v01Run, envErr string) {
 			}
 		}
 	}
+	run.authDone = map[string]chan struct{}{}
+	for l, o := range byLabel {
+		if o.Kind == v01KAuthGood || o.Kind == v01KAuthBad {
+			run.authDone[l] = make(chan struct{})
+		}
+	}
+	run.connClosed = make([]chan struct{}, c.NConn)
+	run.detached = make([][]chan struct{}, c.NConn)
+	for i := range run.connClosed {
+		run.connClosed[i] = make(chan struct{})
+	}
+	run.roundOpened = make([]chan struct{}, len(c.Rounds)+1)
+	for i := range run.roundOpened {
+		run.roundOpened[i] = make(chan struct{})
+	}
+	// harness-owned yield point inside Authenticate: every wait has a cap, so a server that
+	// serialises the calls differently than expected can delay a case but never dead-lock it
 	hook := func(token string) {
 		o := byLabel[v01LabelID(token)]
-		if o == nil || !o.Slow {
+		if o == nil || o.Hold == v01HoldNone {
 			return
 		}
-		select {
-		case <-run.gates[o.Round]:
-		case <-time.After(300 * time.Millisecond):
+		switch o.Hold {
+		case v01HoldWritten:
+			v01WaitCap(run.gates[o.Round], 300*time.Millisecond)
+		case v01HoldAfterAuth:
+			if ch := run.authDone[o.HoldTarget]; ch != nil {
+				v01WaitCap(ch, 40*time.Millisecond)
+			}
+		case v01HoldPastClose:
+			v01WaitCap(run.connClosed[o.Conn], 5*time.Second)
+			if o.HoldLate {
+				v01WaitCap(run.roundOpened[c.Conns[o.Conn].Close], 5*time.Second)
+			}
 		}
 		time.Sleep(time.Duration(o.HoldMs) * time.Millisecond)
+	}
+	done := func(token string) {
+		if ch := run.authDone[v01LabelID(token)]; ch != nil {
+			run.evMu.Lock()
+			v01CloseOnce(ch)
+			run.evMu.Unlock()
+		}
 	}
 	if c.OneP {
 		// a single P makes per-P caches/pools inside the server deterministic (restored after the case)
 		prev := runtime.GOMAXPROCS(1)
 		defer runtime.GOMAXPROCS(prev)
 	}
-	run.env = v01NewEnv(v01EnvCfg{GoodTokens: c.GoodTokens, UseTL: c.UseTL, AuthHook: hook})
+	run.env = v01NewEnv(v01EnvCfg{GoodTokens: c.GoodTokens, UseTL: c.UseTL, AuthHook: hook, AuthDone: done})
 	run.clients = make([]*v01Client, c.NConn)
 	run.barrier = make([]v01HTTPResp, c.NConn)
 	run.dgramsN = make([]int, c.NConn)
 	teardown := func() {
+		// release everything that may still be parked
+		for _, ch := range run.connClosed {
+			v01CloseOnce(ch)
+		}
+		for _, ch := range run.roundOpened {
+			v01CloseOnce(ch)
+		}
 		for _, x := range run.clients {
 			if x != nil {
 				x.Close()
@@ -585,13 +742,24 @@ func v01Execute(c *v01Case) (_ *v01Run, envErr string) {
 			}
 			run.clients[i] = cl
 		}
+		v01CloseOnce(run.roundOpened[r])
 		go func(r int) { run.wgs[r].Wait(); close(run.gates[r]) }(r)
 		var wg sync.WaitGroup
 		results := make([]*v01Res, len(ops))
 		for i, o := range ops {
-			wg.Add(1)
 			res := &v01Res{Op: o, Post: accepted[o.Conn]}
 			results[i] = res
+			if o.Detached {
+				// can only finish when its connection is closed: collected by finish()
+				ch := make(chan struct{})
+				run.detached[o.Conn] = append(run.detached[o.Conn], ch)
+				go func() {
+					defer close(ch)
+					run.doOp(res)
+				}()
+				continue
+			}
+			wg.Add(1)
 			go func() {
 				defer wg.Done()
 				run.doOp(res)
@@ -600,6 +768,9 @@ func v01Execute(c *v01Case) (_ *v01Run, envErr string) {
 		wg.Wait()
 		for _, res := range results {
 			run.res = append(run.res, res)
+			if res.Op.Detached {
+				continue // still running; its connection ends with this round anyway
+			}
 			if res.Op.Kind == v01KAuthGood && res.HTTP.Err == nil && res.HTTP.Status == v01StatusHyOK {
 				accepted[res.Op.Conn] = true
 			}
@@ -668,24 +839,52 @@ func (run *v01Run) finish(conns []int, more bool) (envErr string) {
 	}
 	for _, i := range conns {
 		run.clients[i].Close()
+		v01CloseOnce(run.connClosed[i]) // releases a call parked across the close (after its HoldMs)
+	}
+	// ops the round did not wait for end with an error now that their connection is gone
+	for _, i := range conns {
+		for _, ch := range run.detached[i] {
+			if !v01WaitCap(ch, v01ReqTimeout+5*time.Second) {
+				return fmt.Sprintf("a request on connection c%d did not return after the connection was closed", i)
+			}
+		}
 	}
 	if !more {
 		return ""
 	}
+	// Server side: wait (softly - this only shapes the schedule, nothing is concluded from
+	// it) until a verdict parked across the close has been delivered and until the server
+	// reported the close of a connection it had accepted.
 	for _, i := range conns {
+		for _, ops := range c.Rounds {
+			for _, o := range ops {
+				if o.Conn == i && o.Hold == v01HoldPastClose && !o.HoldLate && run.env.log.count("AuthCall", o.Token) > 0 {
+					if !v01WaitCap(run.authDone[o.Label], 2*time.Second) {
+						run.softMissing++
+					}
+				}
+			}
+		}
+		late := false
+		for _, ops := range c.Rounds {
+			for _, o := range ops {
+				late = late || (o.Conn == i && o.Hold == v01HoldPastClose && o.HoldLate)
+			}
+		}
 		wasAccepted := false
 		for _, e := range run.env.log.snapshot() {
 			if e.Kind == "AuthRet" && e.OK && e.Conn == i {
 				wasAccepted = true
 			}
 		}
-		if !wasAccepted {
+		if !wasAccepted || late {
 			continue
 		}
-		deadline := time.Now().Add(15 * time.Second)
+		deadline := time.Now().Add(2 * time.Second)
 		for run.env.log.countConn("EvDisconnect", i) == 0 {
 			if time.Now().After(deadline) {
-				return fmt.Sprintf("the server did not report the close of connection c%d within 15 s", i)
+				run.softMissing++
+				break
 			}
 			time.Sleep(time.Millisecond)
 		}
@@ -858,10 +1057,14 @@ func (run *v01Run) judge() (violation string, inconclusive string) {
 	var inc string
 	for _, res := range run.res {
 		o := res.Op
-		tolerated := !c.Accept[o.Conn] && o.Round >= killer[o.Conn]
+		// detached ops belong to a connection that was closed while an auth call was parked: an error is the expected end
+		tolerated := (!c.Accept[o.Conn] && o.Round >= killer[o.Conn]) || o.Detached
 		switch o.Kind {
 		case v01KAuthGood:
 			if res.Err != nil {
+				if tolerated {
+					continue
+				}
 				if res.ErrKind == "h3kill" {
 					return fmt.Sprintf("O2: connection c%d was closed by the server with H3_FRAME_UNEXPECTED: a proxy stream opened after the accept was not taken as a proxy stream (%s: %v)", o.Conn, o, res.Err), ""
 				}
@@ -969,6 +1172,14 @@ func (c *v01Case) classify() (nt bool, classes []string) {
 	authBad := make([]bool, c.NConn)    // an AuthBad on the connection
 	preAuthBad := make([]bool, c.NConn) // an AuthBad before the connection's own accept round
 	afterClosedAccepted := false
+	lateAcceptThenBad := false
+	for _, ops := range c.Rounds {
+		for _, o := range ops {
+			if o.Kind == v01KAuthBad {
+				authBad[o.Conn] = true
+			}
+		}
+	}
 	for r, ops := range c.Rounds {
 		for _, o := range ops {
 			post := c.AcceptRnd[o.Conn] >= 0 && r > c.AcceptRnd[o.Conn]
@@ -1025,6 +1236,38 @@ func (c *v01Case) classify() (nt bool, classes []string) {
 			}
 			if o.Slow {
 				set["held-authenticator"] = true
+				set["hold="+v01HoldNames[o.Hold]] = true
+				if o.HoldLate {
+					set["hold=past-close+next-round-open"] = true
+				}
+				if o.Hold == v01HoldAfterAuth {
+					set["concurrent-auths-ordered"] = true
+					if o.Kind == v01KAuthBad && c.Accept[o.Conn] && r == c.AcceptRnd[o.Conn] {
+						set["reject-ordered-after-accept"] = true
+						for _, ops2 := range c.Rounds[r+1:] {
+							for _, x := range ops2 {
+								if x.Conn == o.Conn && x.Kind == v01KTCPReq {
+									set["reject-ordered-after-accept+later-tcp"] = true
+								}
+							}
+						}
+					}
+					if !c.Accept[o.Conn] {
+						set["concurrent-rejects-on-never-accepted"] = true
+					}
+				}
+				if o.Hold == v01HoldPastClose {
+					k := "bad"
+					if o.Kind == v01KAuthGood {
+						k = "good"
+					}
+					set["verdict-after-close:"+k] = true
+					for j, q := range c.Conns {
+						if q.Open >= c.Conns[o.Conn].Close && authBad[j] && o.Kind == v01KAuthGood {
+							lateAcceptThenBad = true
+						}
+					}
+				}
 			}
 		}
 	}
@@ -1067,6 +1310,9 @@ func (c *v01Case) classify() (nt bool, classes []string) {
 			}
 		}
 	}
+	if lateAcceptThenBad {
+		set["accept-verdict-after-close+later-conn-authbad"] = true
+	}
 	set["mode="+c.Mode] = true
 	if c.Mode == "generations" {
 		set[fmt.Sprintf("generations=%d", len(gens))] = true
@@ -1080,7 +1326,7 @@ func (c *v01Case) classify() (nt bool, classes []string) {
 	}
 	nt = (accProxy && neverProxy) || reauthThenProxy || preProxy || (neverProxy && set["held-authenticator"]) ||
 		set["conn-after-closed-accepted:never-accepted+proxy"] || set["conn-after-closed-accepted:never-accepted+authbad"] ||
-		set["conn-after-closed-accepted:authbad-before-own-accept"]
+		set["conn-after-closed-accepted:authbad-before-own-accept"] || set["concurrent-auths-ordered"] || set["hold=past-close"]
 	_ = afterClosedAccepted
 	for k := range set {
 		classes = append(classes, k)
